@@ -238,6 +238,29 @@ pub fn space_settings(r: &mut Sm, thorough: bool) -> Vec<Spec> {
             ],
         });
     }
+    // bounded variants: distance and interpolation must not depend on the bounds, also for states
+    // outside them (a start state may lie outside the sampling box)
+    let bx = |n: usize| CK::R { n, bounds: Some((0..n).map(|i| (-1.0 - i as f64, 1.0 + 0.5 * i as f64)).collect()) };
+    v.push(Spec::plain(Wrap::R, bx(1), None));
+    v.push(Spec::plain(Wrap::R, bx(3), None));
+    v.push(Spec::plain(Wrap::So2, CK::So2 { bounds: Some((-1.0, 2.5)) }, None));
+    v.push(Spec::plain(Wrap::So3, CK::So3 { bounds: Some((r.quat(), 1.0)) }, None));
+    v.push(Spec {
+        wrap: Wrap::Se2,
+        comps: vec![Comp { kind: bx(2), weight: 1.0, frac: None }, Comp { kind: CK::So2 { bounds: Some((-2.0, 2.0)) }, weight: 0.7, frac: None }],
+    });
+    v.push(Spec {
+        wrap: Wrap::Se3,
+        comps: vec![Comp { kind: bx(3), weight: 1.0, frac: None }, Comp { kind: CK::So3 { bounds: None }, weight: 0.7, frac: None }],
+    });
+    v.push(Spec {
+        wrap: Wrap::Compound,
+        comps: vec![
+            Comp { kind: bx(2), weight: 2.0, frac: None },
+            Comp { kind: CK::So2 { bounds: Some((-0.5, 0.5)) }, weight: 1.0, frac: None },
+            Comp { kind: CK::So3 { bounds: Some((r.quat(), 0.8)) }, weight: 0.3, frac: None },
+        ],
+    });
     // compound layouts
     let kinds = [unb(1), unb(2), unb(3), CK::So2 { bounds: None }, CK::So3 { bounds: None }];
     let weights = [0.0, 1e-3, 1.0, 50.0];
